@@ -557,6 +557,41 @@ def check(ctx: Ctx) -> list[RuleResult]:
             r1.ok({"install": norm(n)[:80], "timestamp_is_a_log_key": [h for _a, h in adders] or ["known from an earlier test"]})
     if n_ts < 1:
         raise AnalysisError("no builder call with a timestamp argument was found")
+    # (f) no stale entries: after every store to the map, every path to a normal exit of that function passes a filter of the log
+    #     (the statement itself, or a call of a FaultLog method in which every path from entry to a normal exit passes one) -
+    #     otherwise latest_event/latest_fault/active_faults, which read the log, keep showing entries the map has dropped
+    filter_stmts = {id(n): f for f, n, kind, pay in log_stores if kind == "assign" and isinstance(pay, ast.DictComp)}
+    if filter_stmts:
+        pruners: set[str] = set()
+        for hf in {f for f in filter_stmts.values()}:
+            hcfg = ctx.cfg(hf, pol)
+            leaks_h = [e for e in hcfg.exits_reachable_without(hcfg.entry.id, lambda x: x.kind == "stmt" and id(x.ast) in filter_stmts, skip_start_exc=False) if e[0].kind == "exit"]
+            if not leaks_h:
+                pruners.add(hf.name)
+
+        def _passes_filter(x: Any) -> bool:
+            if x.kind != "stmt" or x.ast is None:
+                return False
+            if id(x.ast) in filter_stmts:
+                return True
+            return any(isinstance(c, ast.Call) and isinstance(c.func, ast.Attribute) and norm(c.func.value) == "self" and c.func.attr in pruners for c in ast.walk(x.ast))
+
+        for f, n, _val in map_stores:
+            if f.name == "__init__":
+                continue
+            # a store inside a helper that builds/returns the map for its caller is judged at the caller's store
+            fcfg = ctx.cfg(f, pol)
+            me_f = [x for x in fcfg.nodes if x.kind == "stmt" and x.ast is n]
+            if not me_f:
+                continue
+            r1.instances += 1
+            r1.nontrivial += 1
+            leaks_f = [e for e in fcfg.exits_reachable_without(me_f[0].id, _passes_filter, skip_start_exc=True) if e[0].kind == "exit"]
+            if leaks_f:
+                ex_node = leaks_f[0][1][-2] if len(leaks_f[0][1]) >= 2 else leaks_f[0][0]
+                r1.fail(f"{f.short}:map-store-without-log-filter", f.loc(n), f"after `{norm(n)[:70]}` a normal exit of {f.short} (via line {getattr(ex_node.ast, 'lineno', '?')}) is reachable without filtering self.{L} down to the mapped timestamps (a pruning helper counts only if all its paths prune): entries the map has dropped stay in the log, and latest_event/latest_fault/active_faults keep reporting them")
+            else:
+                r1.ok({"map_store": norm(n)[:70], "then": "log filtered on every path to a normal exit", "pruning_helpers": sorted(pruners)})
     # (e) every other store to the log keeps all mapped keys
     for f, n, kind, pay in log_stores:
         if kind in ("add", "add-item", "add-call"):
@@ -571,6 +606,17 @@ def check(ctx: Ctx) -> list[RuleResult]:
                 kname = pay.key.id  # type: ignore[union-attr]
                 accepted = {f"{kname} in self.{M}.values()", f"{kname} in set(self.{M}.values())", f"{kname} in list(self.{M}.values())", f"{kname} in tuple(self.{M}.values())"}
                 tests = [xnorm(f.node, t) for t in g.ifs]
+                # `k in dtms` with `dtms = set(self._map.values())` hoisted just before the filter (same block, nothing that
+                # touches self between the two statements) is the same test
+                if len(tests) == 1 and len(g.ifs) == 1 and isinstance(g.ifs[0], ast.Compare) and len(g.ifs[0].ops) == 1 and isinstance(g.ifs[0].ops[0], ast.In) and isinstance(g.ifs[0].comparators[0], ast.Name):
+                    alias = g.ifs[0].comparators[0].id
+                    blk = getattr(getattr(n, "parent", None), "body", None)
+                    if isinstance(blk, list) and n in blk:
+                        i_n = blk.index(n)
+                        defs_ = [i for i, st in enumerate(blk[:i_n]) if isinstance(st, ast.Assign) and len(st.targets) == 1 and isinstance(st.targets[0], ast.Name) and st.targets[0].id == alias]
+                        n_defs = sum(1 for x in ast.walk(f.node) if isinstance(x, ast.Name) and x.id == alias and isinstance(x.ctx, ast.Store))
+                        if len(defs_) == 1 and n_defs == 1 and not any("self" in {y.id for y in ast.walk(st) if isinstance(y, ast.Name)} for st in blk[defs_[0] + 1 : i_n]):
+                            tests = [f"{norm(g.ifs[0].left)} in {norm(blk[defs_[0]].value)}"]
                 if len(tests) == 1 and tests[0] in accepted:
                     # the filter must see the map it is to agree with: no map store after it on the way out
                     cfg = ctx.cfg(f, pol)
